@@ -476,3 +476,77 @@ def ob_repeated_payloads_each_stored(n: int, p0: bool, p1: bool, p2: bool, p3: b
                 drive(st.append_event("a", env_plain(p)))
             evs = drive(st.query_events("a"))
             return [e.sequence for e in evs] == list(range(n)) and [e.event.value.get("i") for e in evs] == ps
+
+
+# ----------------------------------------------------------------------------------------------- a subscriber that goes away
+def _leaving_sub_scenario(store, n, xc, g1, g2, kind) -> Any:
+    """Events 0..n-1 (last one terminal), appended one at a time with gaps; subscriber A (cursor -1) is live from instant 0 and goes away at
+    instant xc (kind 0: its task is cancelled — a dead connection noticed by the server; kind 1: the consumer closes the generator after the
+    event it is at); subscriber B (cursor -1) stays.  Returns B's yielded sequences, or None if B's stream did not end."""
+    got: List[int] = []
+
+    def payload(i):
+        return env_term(i % 3) if i == n - 1 else env_plain(i)
+
+    async def writer():
+        gaps = [g1, g2, g2]
+        for i in range(n):
+            await asyncio.sleep(gaps[i])
+            await store.append_event("a", payload(i))
+
+    async def leaving():
+        gen = store.subscribe_events("a", -1)
+        try:
+            async for _e in gen:
+                if kind == 1 and asyncio.get_event_loop().time() >= xc:
+                    break
+        finally:
+            await gen.aclose()
+
+    async def staying():
+        async for e in store.subscribe_events("a", -1):
+            got.append(e.sequence)
+
+    async def main():
+        a = asyncio.ensure_future(leaving())
+        b = asyncio.ensure_future(staying())
+
+        async def killer():
+            await asyncio.sleep(xc)
+            if kind == 0 and not a.done():
+                a.cancel()
+
+        k = asyncio.ensure_future(killer())
+        await asyncio.ensure_future(writer())
+        await k
+        await asyncio.gather(a, return_exceptions=True)
+        try:
+            await asyncio.wait_for(b, timeout=1000)
+            return True
+        except asyncio.TimeoutError:
+            return False
+
+    ended = MiniLoop().run_until_complete(main())
+    return got if ended else None
+
+
+@obligation(quick=150, thorough=400, partitions_quick=[f"sq == {s} and kind == {k}" for s in (False, True) for k in (0, 1)],
+            partitions_thorough=[f"sq == {s} and kind == {k} and n == {n}" for s in (False, True) for k in (0, 1) for n in (2, 3)],
+            what="two subscribers of one run, one of them GOES AWAY (its task is cancelled, or it closes its stream) at a symbolic instant while "
+                 "the other is waiting: the one that stays still receives every later event exactly once, in order, and its stream ends right "
+                 "after the terminal event — memory and SQLite alike (SQLite: without falling back to its poll interval is not asserted, only "
+                 "delivery)",
+            bounds={"events": "2..3 (last one terminal)", "the leaving subscriber goes at": "0..3", "writer gaps": "1..2 / 0..2"})
+def ob_subscriber_leaves_other_stays(n: int, xc: int, g1: int, g2: int, kind: int, sq: bool) -> bool:
+    """
+    pre: 2 <= n <= 3 and 0 <= xc <= 3 and 1 <= g1 <= 2 and 0 <= g2 <= 2 and 0 <= kind <= 1
+    post: _
+    """
+    n, xc, g1, g2, kind = pick_int(n, 2, 3), pick_int(xc, 0, 3), pick_int(g1, 1, 2), pick_int(g2, 0, 2), pick_int(kind, 0, 1)
+    if sq:
+        with TmpDir() as tmp:
+            st = SqliteWorkflowStore(os.path.join(tmp, "s.db"), poll_interval=1.0)
+            r = _leaving_sub_scenario(st, n, xc, g1, g2, kind)
+    else:
+        r = _leaving_sub_scenario(MemoryWorkflowStore(), n, xc, g1, g2, kind)
+    return r == list(range(n))
